@@ -48,7 +48,7 @@ TrReset ==
     /\ fwd' = 0 /\ drp' = 0 /\ werrs' = 0 /\ rerrs' = 0
     /\ nextId' = 1 /\ plen' = <<>>
     /\ acc' = [s \in Senders |-> <<>>] /\ done' = [s \in Senders |-> <<>>]
-    /\ up' = <<>> /\ upOf' = <<>>
+    /\ up' = <<>> /\ upOf' = <<>> /\ stc' = {}
     /\ skipped' = {} /\ drops' = <<>> /\ dropBytes' = 0 /\ closedRej' = 0
     /\ reported' = 0 /\ repLost' = 0 /\ errs' = 0 /\ spur' = 0
     /\ hist' = hist
@@ -152,7 +152,7 @@ TrReportErr ==
     /\ wb' = [wb EXCEPT ![E.s] = @ + E.amt]
     /\ reported' = reported - E.amt
     /\ werrs' = werrs + 1
-    /\ UNCHANGED <<bufv, conn, recon, hndv, clsv, fwd, drp, rerrs, acc, done, upOf, skipped,
+    /\ UNCHANGED <<bufv, conn, recon, hndv, clsv, fwd, drp, rerrs, acc, done, upOf, stc, skipped,
                    drops, dropBytes, closedRej, repLost, errs, spur>>
     /\ Keep
 
